@@ -545,8 +545,12 @@ def check(prop, tier, seed, replay=None):
     rdir = os.path.join(SCRATCH, "verif-e2d-%s-%07d" % (prop, os.getpid()))
     os.makedirs(rdir, exist_ok=True)
 
+    exe_bundled = build("bundled") if prop == "C20" else None     # translator with its own getopt/dirname/basename/strdup (no libgen.h etc.)
+
     def replay_cmd(path):
-        return [exe, "--replay", path, "--scratch", rdir]
+        with open(path, errors="replace") as f:
+            tagged = "# build bundled" in f.read()
+        return [exe_bundled if (tagged and exe_bundled) else exe, "--replay", path, "--scratch", rdir]
 
     if replay:
         r = subprocess.run(replay_cmd(replay), stdout=subprocess.PIPE, stderr=subprocess.PIPE)
@@ -559,9 +563,24 @@ def check(prop, tier, seed, replay=None):
     def mk(extra):
         return lambda s, st, c: [exe, "--prop", prop, "--corpus", cdir, "--seed", str(seed), "--start", str(s), "--stride", str(st), "--count", str(c),
                                  "--replay-dir", rdir, "--scratch", rdir] + extra
-    pool = WorkerPool(mk([]), total, wall_cap=(900 if tier == "quick" else 7200))
+    main_total = total - total // 4 if exe_bundled else total
+    pool = WorkerPool(mk([]), main_total, wall_cap=(900 if tier == "quick" else 7200))
     run_wall = pool.run()
     allres, crashes, internal = list(pool.results), list(pool.crashes), list(pool.internal)
+    for r in allres:
+        r["variant"] = "default"
+    if exe_bundled:
+        # a quarter of the runs (other indices) on the build that uses the translator's own dirname()/basename()/getopt()/strdup()
+        def mkb(s_, st, c):
+            return [exe_bundled, "--prop", prop, "--corpus", cdir, "--seed", str(seed), "--start", str(main_total + s_), "--stride", str(st), "--count", str(c), "--replay-dir", rdir, "--scratch", rdir]
+        poolb = WorkerPool(mkb, total // 4, wall_cap=(900 if tier == "quick" else 7200))
+        run_wall += poolb.run()
+        for r in poolb.results:
+            r["variant"] = "bundled"
+            if r.get("replay") and r["replay"] != "-" and os.path.exists(r["replay"]):
+                with open(r["replay"], "a") as f:
+                    f.write("# build bundled\n")
+        allres += poolb.results; crashes += poolb.crashes; internal += poolb.internal
     if prop == "C10":
         # every valid spec-suite module once, untruncated, under a seeded option combination and schedule
         pool3 = WorkerPool(mk(["--sweep"]), sweep_size(cdir), wall_cap=1800)
@@ -684,7 +703,7 @@ def check(prop, tier, seed, replay=None):
 
     # determinism canary
     canary_bad = 0
-    okres = [r for r in allres if r.get("status") == "ok"]
+    okres = [r for r in allres if r.get("status") == "ok" and r.get("variant", "default") == "default"]
     sample = okres[:: max(1, len(okres) // 16)][:16]
     for a in sample:
         o = subprocess.run([exe, "--prop", prop, "--corpus", cdir, "--seed", str(seed), "--start", a["idx"], "--count", "1", "--no-replay-files", "--scratch", rdir],
